@@ -176,6 +176,14 @@ CHECK_DEADLOCK FALSE
         base = rng.choice([b"", b"/a", b"/submit.php", b"/x/y"])
         init_params = {b"keep": b"1"} if rng.random() < 0.3 else {}
         init_headers = {b"User-Agent": b"UA"} if rng.random() < 0.5 else {}
+        # ... or already carrying headers / parameters whose names differ from those the program places only in upper / lower case:
+        # names are compared as they are spelled, the initial ones stay and the program's are added next to them
+        if _ % 4 == 1:
+            for s_ in prog:
+                nm = B(s_["arg"]) if s_["op"] in ("header", "parameter") else B(s_["arg"]).split(b": ")[0] if s_["op"] in ("_header", "_hostheader") else B(s_["arg"]).split(b"=")[0] if s_["op"] == "_parameter" else None
+                for var in ((nm.lower(), nm.upper(), nm.swapcase()) if nm else ()):
+                    if var != nm:
+                        (init_params if s_["op"] in ("parameter", "_parameter") else init_headers)[var] = b"initial-" + var
         steps = lib_steps(prog)
         req0 = c2.HttpRequest(method=b"POST", uri=base, params=dict(init_params), headers=dict(init_headers), body=rng.choice([b"", b"", b"previous body"]))
         msg0 = msg_of(req0)
@@ -267,6 +275,36 @@ CHECK_DEADLOCK FALSE
             nbig += 1
     ctx.traces += nbig
     ctx.notes["large_payloads"] = {"cases": nbig, "sizes": sizes}
+    # (6) the response direction (server output, the reverse of a recover program) and payloads that look like something a parser might
+    # want to interpret: compressed streams, an image header, an HTTP message, JSON, base64 text, percent escapes. A body is data.
+    import gzip
+    import zlib
+
+    looks = [gzip.compress(b"hello world " * 20, mtime=0), zlib.compress(b"abc" * 50), b"\x1f\x8b" + b"junk" * 5, b"\x89PNG\r\n\x1a\n" + bytes(20), b"HTTP/1.1 200 OK\r\nA: b\r\n\r\nbody",
+             b'{"a": [1, 2]}', b"aGVsbG8=", b"%41%42%2F", b"\x00" * 17, b"\r\n\r\n", b"PK\x03\x04" + bytes(26), rng.randbytes(33)]
+    rprogs = [[("print", True)], [("print", True), ("mask", True)], [("print", True), ("base64", True)], [("print", True), ("prepend", 3), ("append", 2)],
+              [("print", True), ("netbios", True), ("mask", True)], [("print", True), ("base64url", True), ("prepend", 5)]]
+    nresp = 0
+    for rp in rprogs:
+        for payload in looks:
+            body = reft.server_encode([(o_, a_ if isinstance(a_, int) and not isinstance(a_, bool) else None) for o_, a_ in rp], payload, rng)
+            for msg, label in ((c2.HttpResponse(status=200, reason=b"OK", headers={b"Content-Type": b"application/octet-stream"}, body=body), "response"),
+                               (c2.HttpRequest(method=b"POST", uri=b"/x", params={}, headers={}, body=body), "request")):
+                o = core.outcome(lambda: T(steps=list(rp), reverse=True, build="output").recover(msg))
+                ctx.evaluations += 1
+                if o[0] != "ok" or bytes(o[1].output or b"") != payload:
+                    viol("recover_value", {"recover_program": [x[0] for x in rp], "payload_head": L(payload[:8]), "message": label, "got": str(o)[:120] if o[0] != "ok" else L(bytes(o[1].output or b"")[:8])},
+                         {"class": "looks_like"})
+            nresp += 1
+    # a body that is a complete gzip stream although the program masks the output: the mask key is the stream's first four bytes
+    gz = gzip.compress(b"task data " * 30, mtime=0)
+    for msg in (c2.HttpResponse(status=200, reason=b"OK", headers={}, body=gz), c2.HttpRequest(method=b"POST", uri=b"/x", params={}, headers={}, body=gz)):
+        o = core.outcome(lambda: T(steps=[("print", True), ("mask", True)], reverse=True, build="output").recover(msg))
+        ctx.evaluations += 1
+        if o[0] != "ok" or bytes(o[1].output or b"") != reft.xor4(gz[4:], gz[:4]):
+            viol("recover_value", {"recover_program": ["print", "mask"], "payload_head": L(gz[:8]), "message": type(msg).__name__, "got": str(o)[:120] if o[0] != "ok" else "different bytes"}, {"class": "looks_like"})
+    ctx.traces += nresp
+    ctx.notes["response_direction"] = {"recover_programs": len(rprogs), "payloads": len(looks)}
     ctx.notes["rule"] = ("model: every single-block program (<= MaxEnc encoders from the full set incl. empty / syntax-laden arguments, each of the 4 terminations) and multi-block "
                          "programs with statics x all payloads over {0,65,255} to MaxPay x {empty, non-empty} initial URI; table: the same programs x 6 payloads (all residues mod 3 and 4) "
                          "checked in both directions with the nonce chosen by the spec; random: up to 3 blocks, 6 encoders, binary arguments, payloads to 4 KB; distinct = programs")
